@@ -115,6 +115,13 @@ Definition spec_step (stream wire : bytes) (s : sstate) (o : op) (ob : step_obs)
       end
   else
     match o with
+    | BadFlags _ _ =>
+        (* a malformed call (flags != 0) is refused with ValueError and touches nothing: the observed receive
+           side is exactly as before *)
+        if outcome_eqb out (OExn ValueError) &&
+           bytes_eqb (o_buf ob ++ skipn (o_cnt ob) stream) (s_rem s) &&
+           Nat.eqb (o_left ob) (length (s_intr s))
+        then Some s else None
     | SetMaxsize m =>
         if outcome_eqb out ONone then Some (mkS (s_rem s) m (s_intr s) (s_acc s) (s_wl s) (s_sintr s) (s_dl s)) else None
     | Send _ | Buffer _ | Flush =>
